@@ -91,6 +91,10 @@ impl<R: BufRead> LiteralDataReader<R> {
     }
 
     fn fill_inner(&mut self) -> io::Result<()> {
+        // a previous read failed: keep reporting that
+        if matches!(self, Self::Error) {
+            return Err(io::Error::other("LiteralDataReader errored"));
+        }
         if self.is_done() {
             return Ok(());
         }
